@@ -10,6 +10,7 @@ pub mod c06;
 pub mod c09;
 pub mod c10;
 pub mod c11;
+pub mod c12;
 pub mod c16;
 pub mod e2e_paths;
 
@@ -24,6 +25,7 @@ pub fn run(ctx: &Ctx) -> Option<Report> {
         "C09" => Some(c09::run(ctx)),
         "C10" => Some(c10::run(ctx)),
         "C11" => Some(c11::run(ctx)),
+        "C12" => Some(c12::run(ctx)),
         "C16" => Some(c16::run(ctx)),
         _ => None,
     }
